@@ -26,6 +26,14 @@
 (*   must, mustcoarse, allowed  (see CompleteRunExact, NoOutside below).   *)
 (* Boxes are 4-tuples of integers (lattice coordinates, or ranks of the    *)
 (* float coordinates for recorded real grids: max/min commute with ranks). *)
+(*                                                                         *)
+(* One run of mapproxy-seed works on several tasks one after the other     *)
+(* (one seed entry with several caches and grids is several tasks).  This  *)
+(* module describes ONE task; the composition is that tasks are            *)
+(* independent - per task, a run over several tasks hands over what a run  *)
+(* of that task alone hands over, and every task has a progress identity   *)
+(* of its own (harness/c11.py several_tasks_case runs both on tasks built  *)
+(* by the real seed configuration, with a real progress store).            *)
 (***************************************************************************)
 EXTENDS Integers, Sequences, FiniteSets, TLC, Json, IOUtils
 
